@@ -5,6 +5,7 @@ import (
 	"go/constant"
 	"go/token"
 	"go/types"
+	"sync"
 )
 
 // E2 — dtable: exact evaluation of the comparison/boolean fragment under an
@@ -307,7 +308,21 @@ func evalPureCall(info *types.Info, call *ast.CallExpr, env Env, depth int) ([]c
 // LocalDef returns the single plain definition of a local variable of this function (nil when it has none or several).
 func (g *FG) LocalDef(o types.Object) ast.Expr {
 	g.buildLocalDefs()
-	return g.localDefs[o]
+	def := g.localDefs[o]
+	// a definition that is just another single-definition local (x := y, as left behind by an expanded helper's results)
+	// stands for that local's definition
+	for depth := 0; def != nil && depth < 5; depth++ {
+		id, ok := unparen(def).(*ast.Ident)
+		if !ok {
+			break
+		}
+		next, has := g.localDefs[objOf(g.Info, id)]
+		if !has {
+			break
+		}
+		def = next
+	}
+	return def
 }
 
 // edgeImpliesDeep is edgeImplies that also looks through boolean locals with a single definition:
@@ -435,7 +450,7 @@ func identOf(e ast.Expr) *ast.Ident {
 // those updates that lie on every path to node at (so that o true at `at` implies X); nil otherwise.
 func (g *FG) conjUpdates(o types.Object, at *GNode) []ast.Expr {
 	body := g.F.Body()
-	if o.Pos() < body.Pos() || o.Pos() > body.End() {
+	if !definedIn(g.Info, body, o) {
 		return nil
 	}
 	var xs []ast.Expr
@@ -573,7 +588,7 @@ func (g *FG) buildLocalDefs() {
 		}
 		// only true locals of this function body
 		for o := range g.localDefs {
-			if o.Pos() < body.Pos() || o.Pos() > body.End() {
+			if !definedIn(g.Info, body, o) {
 				delete(g.localDefs, o)
 			}
 		}
@@ -654,7 +669,7 @@ func (g *FG) ResolveUnder(env Env, seen map[*GNode]bool, e ast.Expr, at *GNode) 
 			continue
 		}
 		body := g.F.Body()
-		if o.Pos() < body.Pos() || o.Pos() > body.End() {
+		if !definedIn(g.Info, body, o) {
 			return e
 		}
 		env2 := g.withLocals(env)
@@ -716,4 +731,35 @@ func (g *FG) ResolveUnder(env Env, seen map[*GNode]bool, e ast.Expr, at *GNode) 
 		e = last[0].rhs
 	}
 	return e
+}
+
+// definedIn: is o a variable defined by an identifier inside body (a true local of it)? Decided on the definitions recorded by
+// the type checker, not on source positions: a body into which helpers were expanded holds nodes from several places.
+var definedCache sync.Map // *ast.BlockStmt → map[types.Object]bool
+
+func definedIn(info *types.Info, body *ast.BlockStmt, o types.Object) bool {
+	if body == nil || o == nil {
+		return false
+	}
+	var set map[types.Object]bool
+	if v, ok := definedCache.Load(body); ok {
+		set = v.(map[types.Object]bool)
+	} else {
+		set = map[types.Object]bool{}
+		ast.Inspect(body, func(n ast.Node) bool {
+			if id, isID := n.(*ast.Ident); isID {
+				if d := info.Defs[id]; d != nil {
+					set[d] = true
+				}
+			}
+			if cc, isCC := n.(*ast.CaseClause); isCC {
+				if d := info.Implicits[cc]; d != nil {
+					set[d] = true
+				}
+			}
+			return true
+		})
+		definedCache.Store(body, set)
+	}
+	return set[o]
 }
